@@ -722,9 +722,19 @@ class Ref:
                 rows.append(Row(band(b.present, bnot(bor(*[match[i][j] for i in range(nl)]))), lc + b.cells))
                 lidx.append(None)
         order = None
-        if left.order is not None and t.side in ("inner", "left"):
+        if left.order is not None:
+            # "the left input of join retains its order" - for every side. Rows that exist only on the right have no
+            # left sort key (NULL): their position is not documented, so instances with such rows are outside the precondition.
             descs, keys = left.order
-            order = (descs, [keys[i] for i in lidx])
+            nk = len(keys[0]) if keys else len(descs)
+            okeys = []
+            for pos, i in enumerate(lidx):
+                if i is None:
+                    self.pre.add(bnot(rows[pos].present))
+                    okeys.append([vnull("int")] * nk)
+                else:
+                    okeys.append(keys[i])
+            order = (descs, okeys)
         return RelVal(cols, rows, order)
 
     def join_cond(self, tmp, cond, left, right):
